@@ -72,6 +72,8 @@ class Case(object):
     def __init__(self, desc, sig, line, impl_status, impl_log, extra=None):
         self.desc, self.sig, self.line = desc, sig, line
         self.impl_status, self.impl_log, self.extra = impl_status, impl_log, extra or {}
+        # sensitivity envelope of the non-exact comparison (see solverlib.perturbation)
+        self.env, self.env_extra, self.env_ok = None, {}, True
 
 
 def nontrivial(seq, x0):
@@ -1072,6 +1074,63 @@ class SeededRandom(random.Random):
 
 # ---------------------------------------------------------------------------
 
+def add_envelopes(cases, rerun):
+    """For the cases that are NOT compared exactly: re-run the same family call under input
+    perturbations of +-1e-9 (throw-away context) and attach the sensitivity envelope of every
+    iterate / final state component.  `rerun()` returns the list of Cases of the same call."""
+    need = [c.impl_status == 'ok' and not sl.line_exact(c.line) for c in cases]
+    if not any(need):
+        return
+    perts = []
+    for eps in (1e-9, -1e-9):
+        with sl.perturbation(eps):
+            try:
+                perts.append(rerun())
+            except Exception:  # noqa
+                perts.append(None)
+    for i, c in enumerate(cases):
+        if not need[i]:
+            continue
+        pcs = [pc[i] for pc in perts if pc is not None and len(pc) == len(cases)]
+        if len(pcs) != 2 or any(q.impl_status != 'ok' for q in pcs):
+            c.env_ok = False
+            continue
+        c.env = sl.envelope(c.impl_log, [q.impl_log for q in pcs])
+        if c.env is None:
+            c.env_ok = False
+            continue
+        last = c.env[-1] if c.env else 0.0
+        for k, v in c.extra.items():
+            if k.startswith('_') or not isinstance(v, np.ndarray):
+                continue
+            e = sl.envelope([v], [[q.extra.get(k)] if isinstance(q.extra.get(k), np.ndarray) else None
+                                  for q in pcs])
+            if e is None:
+                c.env_ok = False
+            else:
+                c.env_extra[k] = max(last, e[0])
+
+
+def compare_seq(ctx, c, impl_log, model_log, exact, rtol=1e-9):
+    """exact stream: exact; otherwise per-iterate tolerance + sensitivity envelope; when no reliable
+    envelope exists (perturbed runs take other branches) only the first three iterates are compared"""
+    if exact:
+        return sl.seq_mismatch(impl_log, model_log, exact=True, rtol=rtol)
+    if not c.env_ok:
+        ctx.hit('compare/no-reliable-envelope(first 3 iterates only)')
+        k = min(3, len(impl_log), len(model_log))
+        return sl.seq_mismatch(impl_log[:k], model_log[:k], exact=False, rtol=rtol)
+    return sl.seq_mismatch(impl_log, model_log, exact=False, rtol=rtol, env=c.env)
+
+
+def compare_extra(c, k, v, mv, exact):
+    if exact:
+        return sl.seq_mismatch([v], [mv], exact=True)
+    if not c.env_ok:
+        return None
+    return sl.seq_mismatch([v], [mv], exact=False, env=[c.env_extra.get(k, c.env[-1] if c.env else 0.0)])
+
+
 def plan(ctx, deep=False):
     """(family, cseed, exact, n, opaque) tuples for this run."""
     rng = ctx.rng
@@ -1098,7 +1157,10 @@ def run_one(ctx, fam, cseed, exact, n, opaque):
 def run(ctx, deep=False):
     cases = []
     for fam, cseed, exact, n, opaque in plan(ctx, deep):
-        cases.extend(run_one(ctx, fam, cseed, exact, n, opaque))
+        got = run_one(ctx, fam, cseed, exact, n, opaque)
+        add_envelopes(got, lambda: run_one(core.Ctx(ctx.pid, ctx.tier, ctx.seed), fam, cseed, exact, n,
+                                           opaque))
+        cases.extend(got)
     import time
     t0 = time.time()
     ctx.extra['impl_s'] = round(ctx.elapsed(), 1)
@@ -1121,10 +1183,10 @@ def run(ctx, deep=False):
         ex = sl.line_exact(c.line)
         ctx.hit('compare/' + ('exact' if ex else 'tolerance'))
         if c.impl_log is not None:
-            d = sl.seq_mismatch(c.impl_log, core.pfmat(fields.get('log', '-')), exact=ex)
+            d = compare_seq(ctx, c, c.impl_log, core.pfmat(fields.get('log', '-')), ex)
         for k, v in sorted(c.extra.items()):
             if d is None and k in fields:
-                d = sl.seq_mismatch([v], [core.pfl(fields[k])], exact=ex)
+                d = compare_extra(c, k, v, core.pfl(fields[k]), ex)
                 d = d and 'final {}: {}'.format(k, d)
         if d:
             ctx.disagree(c.desc, d, ans[:300])
